@@ -254,10 +254,56 @@ def classify(sv, dm, te, e):
     return None
 
 
-def uses_type(dm, te, e, ty):
-    if xtype(dm, te, e) == ty:
-        return True
-    return any(uses_type(dm, te, x, ty) for x in e[1:] if isinstance(x, tuple))
+def types_in(dm, te, e):
+    """every C type a value takes while e is evaluated with C typing: node types, the promoted operand types and
+    the common types of the implicit conversions (6.3.1.1, 6.3.1.8)"""
+    out = {xtype(dm, te, e)}
+    k = e[0]
+    subs = [x for x in e[1:] if isinstance(x, tuple)]
+    for x in subs:
+        out |= types_in(dm, te, x)
+    if k == 'un' and e[1] != '!':
+        out.add(S.promote(dm, xtype(dm, te, e[2])))
+    elif k == 'bin' and e[1] not in ('&&', '||'):
+        pa, pb = S.promote(dm, xtype(dm, te, e[2])), S.promote(dm, xtype(dm, te, e[3]))
+        out |= {pa, pb}
+        if e[1] not in ('<<', '>>'):
+            out.add(S.uac(dm, pa, pb))
+    elif k == 'cond':
+        pa, pb = S.promote(dm, xtype(dm, te, e[2])), S.promote(dm, xtype(dm, te, e[3]))
+        out |= {pa, pb, S.uac(dm, pa, pb)}
+    elif k == 'asgop':
+        pa, pb = S.promote(dm, te[e[2]]), S.promote(dm, xtype(dm, te, e[3]))
+        out |= {te[e[2]], pa, pb}
+        if e[1] not in ('<<', '>>'):
+            out.add(S.uac(dm, pa, pb))
+    elif k == 'asg':
+        out.add(te[e[1]])
+    return out
+
+
+IR_SHAPE = {'i8': (8, True), 'i16': (16, True), 'i32': (32, True), 'i64': (64, True),
+            'u8': (8, False), 'u16': (16, False), 'u32': (32, False), 'u64': (64, False)}
+
+
+def unfaithful_types(march):
+    """C types whose exported IR type has another width or signedness (hypothesis `faithful` of the theorems)"""
+    tg = target(march)
+    return [t for t in S.TYPES if IR_SHAPE.get(tg['irt'][t]) != (S.nbits(tg['dm'], t), S.signed(tg['dm'], t))]
+
+
+def fragment_class(march, te, rt, d):
+    """None = inside the proved fragment (agrees + faithful on every type the evaluation goes through); else the
+    class of the first reason why not.  d is the desugared tree."""
+    dm = target(march)['dm']
+    cls = classify(sema_variant(), dm, te, d)
+    if cls:
+        return cls
+    bad = set(unfaithful_types(march)) & (types_in(dm, te, d) | set(te) | {rt})
+    if bad:
+        return 'uint-lowered-as-signed-i16' if bad == {'uint'} and target(march)['irt']['uint'] == 'i16' \
+            else 'unfaithful-ir-type'
+    return None
 
 
 # ------------------------------------------------------------------ rendering
@@ -393,7 +439,7 @@ def gen_case(rng, march, depth):
     dm = target(march)['dm']
     for _ in range(30):
         te = [rng.choice(S.TYPES) for _ in range(rng.choice([2, 2, 3]))]
-        e = gen_x(rng, dm, te, rng.randint(1, depth), small=rng.random() < 0.5)
+        e = gen_x(rng, dm, te, rng.choice([2, 3, 4, 5, depth, depth]), small=rng.random() < 0.5)
         if not seq_ok(e):
             continue
         d = desugar(dm, e)
@@ -576,7 +622,7 @@ WITNESSES = [
     ('x86_64', 'common-type', ['ulong', 'llong'], 'int', ('bin', '<', ('var', 1), ('var', 0)), (1, -1), 0),
     ('msp430', 'promote', ['ushort'], 'int',
      ('bin', '<', ('bin', '-', ('var', 0), ('lit', 'int', 1)), ('lit', 'int', 0)), (0,), 0),
-    ('msp430', 'uint16-as-i16', ['uint'], 'long', ('var', 0), (40000,), 40000),
+    ('msp430', 'uint-lowered-as-signed-i16', ['uint'], 'long', ('var', 0), (40000,), 40000),
     ('x86_64', 'compound-assign', ['int', 'uint'], 'int', ('asgop', '/', 0, ('var', 1)), (-7, 2), 2147483644),
     ('arm', 'compound-assign', ['char', 'int'], 'int', ('asgop', '/', 0, ('var', 1)), (100, 300), 0),
 ]
@@ -607,10 +653,9 @@ def check_real(ctx, march, te, rt, e, vecs, stats, forced_class=None):
                     continue
         n += 1
         d = desugar(dm, e)
-        cls = forced_class or classify(sema_variant(), dm, te, d)
-        if cls is None and tg['irt']['uint'] == 'i16' and (uses_type(dm, te, d, 'uint') or rt == 'uint'
-                                                          or 'uint' in te):
-            cls = 'uint16-as-i16'
+        cls = fragment_class(march, te, rt, d)
+        if cls is None:
+            cls = forced_class
         rec = {'fn': 'c_to_ir expression', 'dm': DMNAME[march], 'target': march, 'source': src, 'args': list(args),
                'expected': exp, 'actual': actual if isinstance(actual, (int, str)) else repr(actual),
                'how_to_replay': "PYTHONPATH=%s:%s/tools /venv/bin/python -c \"import io, irsem_py; from ppci.api import "
@@ -673,7 +718,10 @@ def gcc_run(src, timeout=120, sanitize=False):
         c = subprocess.run(['gcc'] + flags + [p, '-o', exe], capture_output=True, text=True, timeout=timeout)
         if c.returncode != 0:
             return None, 'gcc: ' + c.stderr[-300:]
-        r = subprocess.run([exe], capture_output=True, text=True, timeout=timeout)
+        try:
+            r = subprocess.run([exe], capture_output=True, text=True, timeout=10)
+        except subprocess.TimeoutExpired:
+            return None, 'timeout'
         if r.returncode != 0:
             return None, 'exit %d %s' % (r.returncode, r.stderr[-200:])
         return r.stdout, ''
@@ -750,13 +798,14 @@ class ProgGen:
     def stmts(self, vars_, depth, n):
         rng = self.rng
         out = []
+        wr = [v for v in vars_ if v[0] not in 'ikd' or not v[1:].isdigit()]
         for _ in range(n):
             r = rng.random()
-            lhs = rng.choice(vars_ + ['g1', 'g2', 'gs.x', 'gs.y', 'gs.z', 'arr[%s & 7]' % rng.choice(vars_)])
+            lhs = rng.choice(wr + ['g1', 'g2', 'gs.x', 'gs.y', 'gs.z', 'arr[%s & 7]' % rng.choice(vars_)])
             if depth <= 0 or r < 0.35:
                 out.append('%s = %s;' % (lhs, self.expr(vars_, 2)))
             elif r < 0.45:
-                out.append('%s %s= %s;' % (rng.choice(vars_[:2]), rng.choice(['+', '-', '^', '|', '&']), self.expr(vars_, 2)))
+                out.append('%s %s= %s;' % (rng.choice(wr[:2]), rng.choice(['+', '-', '^', '|', '&']), self.expr(vars_, 2)))
             elif r < 0.60:
                 out.append('if (%s) { %s } else { %s }' % (self.expr(vars_, 2), ' '.join(self.stmts(vars_, depth - 1, 2)),
                                                            ' '.join(self.stmts(vars_, depth - 1, 1))))
@@ -804,48 +853,56 @@ class ProgGen:
 
 
 def statements(ctx, n):
-    st = {'generated': 0, 'programs': 0, 'ub_or_rejected_by_gcc': 0, 'ppci_compile_error': 0, 'compared': 0, 'agree': 0, 'ir_ub': 0}
+    from concurrent.futures import ThreadPoolExecutor
+    st = {'generated': 0, 'programs': 0, 'ub_or_rejected_by_gcc': 0, 'ppci_compile_error': 0, 'compared': 0, 'agree': 0,
+          'ir_ub': 0}
     dm = target('x86_64')['dm']
     cty = {'int': 'int', 'unsigned int': 'uint', 'short': 'short', 'long long': 'llong', 'unsigned char': 'uchar'}
-    tries = 0
-    while st['programs'] < n and tries < 6 * n:
-        tries += 1
-        gen = ProgGen(ctx.rng)
-        src, (ta, tb) = gen.program()
-        st['generated'] += 1
-        vecs = [(ctx.rng.choice(S.pool(dm, cty[ta])), ctx.rng.choice(S.pool(dm, cty[tb]))) for _ in range(3)]
-        main = '#include <stdio.h>\n' + src + '\nint main(void) {\n' + '\n'.join(
-            'g1 = 3; g2 = 4000000000u; printf("%%lld\\n", f(%s, %s));' % (S.c_lit(dm, cty[ta], a), S.c_lit(dm, cty[tb], b))
-            for a, b in vecs) + '\nreturn 0; }'
-        out, err = gcc_run(main, sanitize=True)
-        if out is None:
-            st['ub_or_rejected_by_gcc'] += 1
-            continue
-        exp = [int(x) for x in out.split()]
-        st['programs'] += 1
-        for march in ('x86_64', 'arm'):
-            mod, err = compile_c(march, src)
-            if mod is None:
-                st['ppci_compile_error'] += 1
-                ctx.violation({'fn': 'c_to_ir program', 'key': 'program-compile', 'target': march, 'source': src,
-                               'expected': 'compiles', 'actual': err,
-                               'how_to_replay': 'save `source` as t.c; ppci.api.c_to_ir(open("t.c"), "%s")' % march})
-                continue
-            for (a, b), e in zip(vecs, exp):
-                r = run_ir(march, mod, [a, b], fuel=4000)
-                st['compared'] += 1
-                ctx.cov['evaluations'] += 1
-                if isinstance(r, OkV) and r.v == e:
-                    st['agree'] += 1
-                    continue
-                if not isinstance(r, OkV):
-                    st['ir_ub'] += 1
-                ctx.violation({'fn': 'c_to_ir program', 'key': 'program', 'target': march, 'source': src, 'args': [a, b],
-                               'expected': e, 'actual': r.v if isinstance(r, OkV) else repr(r),
-                               'how_to_replay': 'save `source` as t.c; m = ppci.api.c_to_ir(open("t.c"), "%s"); '
-                                                'tools/irsem_py.run_main(m, "f", args, 4000, (ptr_size, 65536, 16777216)); '
-                                                'oracle: gcc -O0 t.c with a main printing f(args)' % march})
+    rounds = 0
+    while st['programs'] < n and rounds < 4:
+        rounds += 1
+        batch = []
+        for _ in range(int((n - st['programs']) * 1.15) + 2):
+            src, (ta, tb) = ProgGen(ctx.rng).program()
+            vecs = [(ctx.rng.choice(S.pool(dm, cty[ta])), ctx.rng.choice(S.pool(dm, cty[tb]))) for _ in range(3)]
+            main = '#include <stdio.h>\n' + src + '\nint main(void) {\n' + '\n'.join(
+                'g1 = 3; g2 = 4000000000u; printf("%%lld\\n", f(%s, %s));' % (S.c_lit(dm, cty[ta], a), S.c_lit(dm, cty[tb], b))
+                for a, b in vecs) + '\nreturn 0; }'
+            batch.append((src, vecs, main))
+        st['generated'] += len(batch)
+        with ThreadPoolExecutor(max_workers=4) as ex:
+            outs = list(ex.map(lambda t: gcc_run(t[2], sanitize=True), batch))
+        for (src, vecs, _m), (out, err) in zip(batch, outs):
+            if st['programs'] >= n:
                 break
+            if out is None:
+                st['ub_or_rejected_by_gcc'] += 1
+                continue
+            exp = [int(x) for x in out.split()]
+            st['programs'] += 1
+            for march in ('x86_64', 'arm'):
+                mod, err = compile_c(march, src)
+                if mod is None:
+                    st['ppci_compile_error'] += 1
+                    ctx.violation({'fn': 'c_to_ir program', 'key': 'program-compile', 'target': march, 'source': src,
+                                   'expected': 'compiles', 'actual': err,
+                                   'how_to_replay': 'save `source` as t.c; ppci.api.c_to_ir(open("t.c"), "%s")' % march})
+                    continue
+                for (a, b), e in zip(vecs, exp):
+                    r = run_ir(march, mod, [a, b], fuel=4000)
+                    st['compared'] += 1
+                    ctx.cov['evaluations'] += 1
+                    if isinstance(r, OkV) and r.v == e:
+                        st['agree'] += 1
+                        continue
+                    if not isinstance(r, OkV):
+                        st['ir_ub'] += 1
+                    ctx.violation({'fn': 'c_to_ir program', 'key': 'program', 'target': march, 'source': src,
+                                   'args': [a, b], 'expected': e, 'actual': r.v if isinstance(r, OkV) else repr(r),
+                                   'how_to_replay': 'save `source` as t.c; m = ppci.api.c_to_ir(open("t.c"), "%s"); '
+                                                    'tools/irsem_py.run_main(m, "f", args, 4000, (ptr_size, 65536, 16777216)); '
+                                                    'oracle: gcc -O0 t.c with a main printing f(args)' % march})
+                    break
     ctx.cov['distinct_nontrivial'] += st['agree']
     ctx.cov['stages']['statements_vs_gcc'] = st
     return st
@@ -868,13 +925,22 @@ def regen(ctx):
 
 
 def run(ctx):
+    import time
+    wall = {}
+    t0 = time.time()
+
+    def lap(name):
+        nonlocal t0
+        wall[name] = round(time.time() - t0, 1)
+        t0 = time.time()
     regen(ctx)
     ok, _ = ctx.build(['Proofs/C01_expr.vo', 'Proofs/C01_refuted.vo', 'Model/CGenExprRun.vo'])
     if ok:
         ctx.check_props('Props/C01.v')
+    lap('coq')
     deep = not ctx.quick()
     n_expr = 4000 if deep else 250
-    n_model = 900 if deep else 150          # cases that also go through the Coq model (structure + values)
+    n_model = 900 if deep else 120          # cases that also go through the Coq model (structure + values)
     cases = []
     for i in range(n_expr):
         c = gen_case(ctx.rng, TARGETS[i % len(TARGETS)], 6)
@@ -882,20 +948,28 @@ def run(ctx):
             cases.append(c)
     dist = {}
     for c in cases:
-        cls = classify(sema_variant(), target(c[0])['dm'], c[1], desugar(target(c[0])['dm'], c[3])) or 'in-fragment'
+        cls = fragment_class(c[0], c[1], c[2], desugar(target(c[0])['dm'], c[3])) or 'in-fragment'
         dist['%s/%s' % (DMNAME[c[0]], cls)] = dist.get('%s/%s' % (DMNAME[c[0]], cls), 0) + 1
     ctx.cov['stages']['generated'] = {'expressions': len(cases), 'by_class': dist,
-                                      'mean_size': round(sum(S.size(c[3]) for c in cases) / max(1, len(cases)), 1)}
+                                      'mean_size': round(sum(S.size(c[3]) for c in cases) / max(1, len(cases)), 1),
+                                      'max_size': max(S.size(c[3]) for c in cases)}
     for c in cases[:: max(1, len(cases) // 8)]:
         ctx.note_sample({'target': c[0], 'program': c_function(target(c[0])['dm'], c[1], c[2], c[3]),
                          'args': list(c[4][0][0]), 'value': c[4][0][1]})
+    lap('generate')
     if ok:
         correspondence(ctx, cases[:n_model])
+    lap('correspondence')
     gcc_spec_validation(ctx, cases)
-    search(ctx, cases)
+    lap('spec_vs_gcc')
+    search(ctx, cases, n_extra=3000 if deep else 600)
+    lap('search')
     statements(ctx, 400 if deep else 30)
+    lap('statements')
     if ctx.failed_stages and ctx.quick():
-        search(ctx, None, n_extra=600)
+        search(ctx, None, n_extra=1500)
+        lap('deep_search')
+    ctx.cov['stages']['wall_s'] = wall
     ctx.cov['exhaustive'] = False
     ctx.cov['rule'] = RULE
 
